@@ -142,6 +142,7 @@ func RunOne(t *testing.T, prop string, seed uint64, sc Scenario, o RunOpts, res 
 			res.HarnessErr = fmt.Sprintf("panic in harness: %v\n%s", r, debug.Stack())
 		}
 	}()
+	simhook.ResetPools()
 	synctest.Test(t, func(t *testing.T) {
 		k := sim.New(sc.Cfg(), seed, o.Tape, o.Replay)
 		k.KeepTrace = o.KeepTrace
